@@ -138,11 +138,11 @@ Lemma filter_set_count : forall (f : Z * Z -> bool) c x co,
   ((if f (c, x) then 1 else 0) + length (filter f (del Z.eqb c co)))%nat.
 Proof. intros. unfold set. cbn [filter]. destruct (f (c, x)); reflexivity. Qed.
 
-(* the step lemma *)
-Lemma Inv_step : forall cfg st m o, Inv cfg st m -> Inv cfg (step cfg st o) (mon_step cfg m o).
+(* the step lemmas *)
+Lemma Inv_observe : forall cfg st m c oa, Inv cfg st m ->
+  Inv cfg (record cfg st c oa) (mon_observe cfg m c oa).
 Proof.
-  intros cfg st m o [Hcl Hcr Hval Hnd Hwf Hcnt]. destruct o as [c oa|c|c]; cbn [step mon_step].
-  - (* Observe *)
+  intros cfg st m c oa [Hcl Hcr Hval Hnd Hwf Hcnt]. unfold mon_observe.
     rewrite Hcl. pose proof (record_counts cfg st c oa) as R.
     destruct (counts cfg (closed st) c oa) as [[l x]|].
     2:{ rewrite R. constructor; assumption. }
@@ -187,10 +187,20 @@ Proof.
         rewrite Nat2Z.inj_add, b2n_b2z.
         rewrite (credits_delta cfg c ci tl g x l' x' g' Eci Eloc Eobs).
         rewrite El. lia.
-  - (* MarkClosed *)
+Qed.
+
+Lemma Inv_mark : forall cfg st m c, Inv cfg st m ->
+  Inv cfg (mark_closed st c) (mkMon (m_cred m) (mon_close (m_closed m) c)).
+Proof.
+  intros cfg st m c [Hcl Hcr Hval Hnd Hwf Hcnt].
     constructor; cbn [mark_closed ext cobs closed m_cred m_closed]; try assumption.
     unfold mon_close. rewrite Hcl. reflexivity.
-  - (* Disconnect *)
+Qed.
+
+Lemma Inv_disconnect : forall cfg st m c, Inv cfg st m ->
+  Inv cfg (disconnect cfg st c) (mon_disconnect m c).
+Proof.
+  intros cfg st m c [Hcl Hcr Hval Hnd Hwf Hcnt]. unfold disconnect, mon_disconnect.
     unfold remove_conn. cbn [mark_closed ext cobs closed].
     assert (Hcl' : mon_close (m_closed m) c = (if zmem c (closed st) then closed st else c :: closed st))
       by (unfold mon_close; rewrite Hcl; reflexivity).
@@ -216,4 +226,16 @@ Proof.
     + assert (Hnot : ~ In c (keys (cobs st))) by (apply (get_None_notin Z.eqb zeqb_spec), Eg).
       constructor; cbn [ext cobs closed m_cred m_closed]; try assumption.
       rewrite Hcr, <- cred_of_del, (del_notin Z.eqb zeqb_spec c (cobs st) Hnot). reflexivity.
+Qed.
+
+Lemma Inv_step : forall cfg st m o, Inv cfg st m ->
+  Inv cfg (step cfg st o) (mon_step cfg m o (fired cfg o)).
+Proof.
+  intros cfg st m o HI. destruct o as [c oa|c|c|c oa d]; cbn [step mon_step fired].
+  - apply Inv_observe, HI.
+  - apply Inv_mark, HI.
+  - apply Inv_disconnect, HI.
+  - destruct (hook_fires cfg c oa).
+    + apply Inv_observe, Inv_disconnect, HI.
+    + apply Inv_observe, HI.
 Qed.
